@@ -7,6 +7,7 @@ import (
 	"strconv"
 	"strings"
 	"sync"
+	"time"
 
 	"verifsim/kernel"
 	"verifsim/simnet"
@@ -35,6 +36,7 @@ type c02Plan struct {
 	parkReq     bool
 	parkRes     bool
 	unreachable bool
+	failKind    string // refused | dial_timeout | origin_closes (how the upstream fails when unreachable)
 	spec        *ReqSpec
 	resp        *RespSpec
 }
@@ -84,6 +86,16 @@ func runC02(k *kernel.K) {
 	n.LogSystemOps = true
 	proxy, l := newProxyA(k, n)
 	k.AddSource(k.GateSource)
+	// refuse.test has no handler: dials are refused. timeout.test: dials hang, then time out.
+	n.TimeoutAddrs = map[string]bool{"timeout.test:80": true}
+	k.AddSource(func(add func(kernel.Action)) {
+		if n.SleepingDials() > 0 {
+			add(kernel.Action{Key: "advance past dial timeout", W: 2, Class: kernel.Clock, Do: func() {
+				k.FaultFired("dial_timeout")
+				k.Advance(31 * time.Second)
+			}})
+		}
+	})
 	liveBase := martian.VerifLiveContexts()
 
 	plans := map[int]*c02Plan{}
@@ -205,6 +217,11 @@ func runC02(k *kernel.K) {
 		if p == nil || p.resp == nil {
 			return &Reply{Raw: []byte("HTTP/1.1 500 Unplanned\r\nContent-Length: 0\r\n\r\n")}
 		}
+		if p.failKind == "origin_closes" {
+			// reads the request, then closes without a single byte of response
+			k.FaultFired("origin_closes_without_response")
+			return &Reply{CloseAfter: true}
+		}
 		return &Reply{Raw: p.resp.Encode(req.Method)}
 	}
 	origin := NewOrigin(k, n, "origin-a.test:80", plan)
@@ -252,10 +269,16 @@ func runC02(k *kernel.K) {
 				}
 				p.spec = &ReqSpec{ID: id, Method: "CONNECT", Host: host, Path: host}
 			} else {
-				p.unreachable = w.Chance(1, 8)
+				p.unreachable = w.Chance(1, 6)
 				host := "origin-a.test"
 				if p.unreachable {
-					host = "refuse.test"
+					p.failKind = []string{"refused", "dial_timeout", "origin_closes"}[w.Pick([]int{2, 1, 2})]
+					switch p.failKind {
+					case "refused":
+						host = "refuse.test"
+					case "dial_timeout":
+						host = "timeout.test"
+					}
 				}
 				p.spec = &ReqSpec{ID: id, Method: []string{"GET", "POST", "HEAD"}[w.Pick([]int{4, 3, 1})], Abs: !w.Chance(1, 4), Host: host, Path: fmt.Sprintf("/x%d/p", id)}
 				if p.spec.Method == "POST" {
